@@ -2,7 +2,7 @@
 // Scope skeletons for C05 (and, printed through the stringifier, for C14).
 const T = require('./tmplmodel')
 const M = require('./exprmodel')
-const { text, el, block, tdef, tis, wxs, A, E } = T
+const { text, el, block, tdef, tis, wxs, slot, A, E } = T
 const id = M.id
 
 const NAMES = ['item', 'index', 'a', 'm', 'v', 'x']
@@ -127,6 +127,23 @@ function corpus(depth) {
       push(`same-parent:${kn}|slot-scoped-after-slot-scoped|${nm}`, [el('c', [], [el('d', [], [text('in')], { slotScopes: scopes }), el('e', [], [probe(M.arr([id(nm), id('v')]))], { slotScopes: [['v', undefined]] })])])
       push(`same-parent:${kn}|self-closing-then-for|${nm}`, [el('c', [], [el('d', [A.plain('p', E(id(nm)))], [], { slotScopes: scopes }), el('f', [], [probe(M.arr([id(nm), id('item')]))], { wxFor: { list: E(id('list2')), item: 'item' } })])])
     }
+  }
+  // two slot-scoped siblings whose value names and aliases collide in every way (value = value, alias = earlier value,
+  // alias = earlier alias, value = earlier alias), the second one with a loop inside
+  const decls = [[['a', undefined]], [['v', undefined]], [['v', 'a']], [['a', 'v']], [['zz', 'a']], [['a', undefined], ['v', 'x']]]
+  for (const s1 of decls) for (const s2 of decls) {
+    const dn = (d) => d.map((x) => x[0] + (x[1] ? '=' + x[1] : '')).join('+')
+    for (const nm of NAMES) {
+      push(`two-slot-scoped:${dn(s1)}:${dn(s2)}|loop-in-second|${nm}`, [el('c', [], [el('d', [], [probe(id(nm))], { slotScopes: s1 }), el('e', [], [block([probe(M.arr([id(nm), id('item')]))], { wxFor: { list: E(id('list')) } })], { slotScopes: s2 })])])
+    }
+    push(`two-slot-scoped:${dn(s1)}:${dn(s2)}|plain-in-second`, [el('c', [], [el('d', [], [probe(M.arr([id('a'), id('v')]))], { slotScopes: s1 }), el('e', [], [probe(M.arr([id('a'), id('v'), id('x'), id('zz')]))], { slotScopes: s2 })])])
+  }
+  // a <slot> element that carries slot: references (it has no children, its scopes must end with it)
+  for (const scopes of decls.slice(0, 4)) for (const nm of NAMES) {
+    const dn = scopes.map((x) => x[0] + (x[1] ? '=' + x[1] : '')).join('+')
+    push(`slot-element-with-scopes:${dn}|sibling|${nm}`, [el('c', [], [slot('s', [], { slotScopes: scopes }), probe(id(nm))])])
+    push(`slot-element-with-scopes:${dn}|for-sibling|${nm}`, [el('c', [], [slot('s', [], { slotScopes: scopes }), el('f', [], [probe(M.arr([id(nm), id('item')]))], { wxFor: { list: E(id('list')) } })])])
+    push(`slot-element-with-scopes:${dn}|top-level|${nm}`, [slot(undefined, [], { slotScopes: scopes }), probe(id(nm))])
   }
   // an empty-bodied scoped element followed by a scoped sibling with other names
   for (const nm of NAMES) {
